@@ -263,6 +263,58 @@ func (e *Engine) VerifyStructural(name string) {
 		}
 		sort.Strings(us)
 		e.Obls = append(e.Obls, &Obligation{Name: oname, Kind: "structural", Func: oname, Goal: True, Clause: fmt.Sprintf("%s (%d functions scanned; used: %s)", sc.Text, n, strings.Join(us, " ")), Where: where})
+	case "only_makes":
+		// only_makes PKG@prefix1|prefix2: FUNC...   - make([]T, n) / append-free allocation sites
+		var prefixes []string
+		pk := strings.TrimSuffix(f[1], ":")
+		if k := strings.Index(pk, "@"); k >= 0 {
+			prefixes = strings.Split(pk[k+1:], "|")
+			pk = pk[:k]
+		}
+		pkg := resolvePkg(pk)
+		allowed := map[string]bool{}
+		for _, x := range f[2:] {
+			allowed[strings.TrimSuffix(x, ":")] = true
+		}
+		var bad []string
+		n, sites := 0, 0
+		for _, fn := range fns {
+			if pkgOf(fn) != pkg || len(fn.Blocks) == 0 {
+				continue
+			}
+			sk := shortKey(funcKey(fn))
+			if len(prefixes) > 0 {
+				okp := false
+				for _, pf := range prefixes {
+					if strings.HasPrefix(sk, pf) {
+						okp = true
+					}
+				}
+				if !okp {
+					continue
+				}
+			}
+			n++
+			for _, b := range fn.Blocks {
+				for _, in := range b.Instrs {
+					if _, ok := in.(*ssa.MakeSlice); ok {
+						sites++
+						if !allowed[sk] {
+							bad = append(bad, sk+" @"+e.posOf(in.Pos()))
+						}
+					}
+				}
+			}
+		}
+		if n == 0 {
+			fail("no functions matched in " + pkg)
+			return
+		}
+		if len(bad) > 0 {
+			fail("make([]T, n) also in: " + strings.Join(bad, "; "))
+			return
+		}
+		e.Obls = append(e.Obls, &Obligation{Name: oname, Kind: "structural", Func: oname, Goal: True, Clause: fmt.Sprintf("%s (%d make sites in %d functions)", sc.Text, sites, n), Where: where})
 	default:
 		fail("unknown structural check " + f[0])
 	}
